@@ -42,6 +42,7 @@ FIXED = [
     "fixed: property=C17 a03a28a an import cycle leading back to the compiled file inlined its text a second time (uses before definitions, duplicate definitions)",
     "fixed: property=C15 b2d189c two calls of a function declaring a Memory shared one cell (same commit as the C16 entry)",
     "fixed: property=C13 463dbab implicit signals were allocated from a pool that did not exclude the signals the program uses explicitly (`Signal a = (\"signal-A\", 5); Signal b = 7;` put both on signal-A)",
+    "fixed: property=C20 008479a with optimisation on, a top-level name whose node CSE merged with an earlier identical value (`Signal n1 = f(x, 8);` after `Signal n0 = f(x, 8);`) got no output anchor",
     "fixed: property=C01 7701d37 a comparison with an integer literal on the left (`3 < a`) was emitted as `signal-0 < a`",
 ]
 
@@ -147,6 +148,15 @@ add("C13", K1, K1_WHAT, "K1",
      ["sig", "r1", ["s", ["c", ">", ["v", "e1"], ["n", -2]], ["v", "e0"]]],
      ["sig", "r2", ["b", "+", ["v", "r0"], ["v", "u0"]]], ["sig", "r3", ["b", "-", ["v", "r1"], ["v", "u0"]]]],
      "nval": 8, "vseed": 1008505233, "sseed": 26184728, "pseed": 424562606})
+
+
+# ---- C20
+add("C20", K1, K1_WHAT, "K1",
+    dict(case([["input", "i0", "iron-plate", 17], ["input", "i1", "low-density-structure", 4], ["input", "i3", "signal-damage", 9],
+               ["sig", "n0", ["s", ["c", "==", ["v", "i1"], ["n", 10]], ["v", "i3"]]],
+               ["sig", "n2", ["p", ["b", "-", ["v", "n0"], ["v", "i1"]], "signal-hourglass"]]],
+              "mixed_names", nval=2), kinds={"i0": "input", "i1": "input", "i3": "input", "n0": "sel", "n2": "arith"},
+         optimize=True))
 
 
 def main():
